@@ -295,7 +295,7 @@ def child_main(case, db, st, crash_at, report_path, as_recoverer=False):
     os._exit(code)
 
 
-def fork_run(fn, *a, timeout=120.0):
+def fork_run(fn, *a, timeout=300.0):
     pid = os.fork()
     if pid == 0:
         try:
